@@ -18,6 +18,10 @@ TABLE = {
             'reweight (both normalisation modes, function/method/Corr), correlate, merge_obs and qtop_projection are proven to pair samples by (replica, configuration '
             'number) for all sample values over the enumerated layouts; unalignable requests are shown to raise on every enumerated case.',
             'Real-number semantics; layouts bounded (weights on <= 3 replicas x <= 8 configurations); round() modelled exactly over the reals.'),
+    'C13': (True, 'symbolic execution of jackknife/bootstrap export+import and gamma_method(S=0) on z3 reals (bootstrap table entries as z3 ints); SMT polynomial identities',
+            'Leave-one-out means, import-export identity (idl included), jackknife-variance = naive error squared and bootstrap means are proven for all sample values '
+            'for chain lengths 5..10 (14 thorough); bootstrap import restores the observable for concrete full-rank tables under the lstsq contract.',
+            'Real-number semantics; scipy.linalg.lstsq replaced by its normal-equation contract; symbolic bootstrap tables limited to 1-2 symbolic entries per row.'),
 }
 
 NOT_YET = 'check not built yet in this session (work in progress; see DESIGN.md section 4 for the plan)'
